@@ -138,6 +138,16 @@ func init() {
 				}
 				for _, c := range sw.Body.List {
 					cc := c.(*ast.CaseClause)
+					if len(cc.List) == 0 && len(cc.Body) == 1 {
+						// `default: return false` (the form that returns the condition of each case directly)
+						if rs, ok := cc.Body[0].(*ast.ReturnStmt); ok && len(rs.Results) == 1 {
+							if id, ok := rs.Results[0].(*ast.Ident); ok && id.Name == "false" {
+								continue
+							}
+						}
+						okShape = false
+						continue
+					}
 					if len(cc.List) != 1 || len(cc.Body) != 1 {
 						okShape = false
 						continue
@@ -148,8 +158,24 @@ func init() {
 						continue
 					}
 					v := variant{host: host}
-					is, ok := cc.Body[0].(*ast.IfStmt)
-					if !ok {
+					// either `if <cond> { return true }` (falling through to `return false`) or `return <cond>`
+					var cond ast.Expr
+					switch b := cc.Body[0].(type) {
+					case *ast.IfStmt:
+						cond = b.Cond
+						if b.Else != nil || b.Init != nil || len(b.Body.List) != 1 {
+							okShape = false
+						} else if rs, ok := b.Body.List[0].(*ast.ReturnStmt); !ok || len(rs.Results) != 1 {
+							okShape = false
+						} else if id, ok := rs.Results[0].(*ast.Ident); !ok || id.Name != "true" {
+							okShape = false
+						}
+					case *ast.ReturnStmt:
+						if len(b.Results) == 1 {
+							cond = b.Results[0]
+						}
+					}
+					if cond == nil {
 						okShape = false
 						continue
 					}
@@ -187,7 +213,7 @@ func init() {
 							okShape = false
 						}
 					}
-					walk(is.Cond)
+					walk(cond)
 					variants = append(variants, v)
 				}
 			}
